@@ -44,6 +44,7 @@ def plan(tier, seed):
     specs += [{"kind": "laws", "n": 3000 if tier == "quick" else 40000} for _ in range(2 if tier == "quick" else 6)]
     specs += [{"kind": "predicates"}]
     specs += [{"kind": "rebind", "n": 1500 if tier == "quick" else 8000} for _ in range(3 if tier == "quick" else 12)]
+    specs += [{"kind": "compound", "n": 1500 if tier == "quick" else 12000} for _ in range(1 if tier == "quick" else 4)]
     specs += [{"kind": "longchains", "n": 150 if tier == "quick" else 1500} for _ in range(2 if tier == "quick" else 4)]
     return specs
 
@@ -579,6 +580,85 @@ def run_rebind(spec, ctx):
         ctx.sample_maybe({"rebind_program": prog[:400]}, 0.004)
 
 
+COMPOUND_FORMS = [
+    # (name, statements with {A} {op} {B}, expression giving the updated place, expression giving an untouched neighbour)
+    ("var", "def v = {A}; v {op}= {B}", "v", None),
+    ("var-value", "def v = {A}; def w = (v {op}= {B})", "w", None),
+    ("elem", "def l = [0, {A}, 2]; l[1] {op}= {B}", "l[1]", "[l[0], l[2], length(l)]"),
+    ("elem-negative", "def l = [0, {A}]; l[-1] {op}= {B}", "l[1]", "[l[0], length(l)]"),
+    ("map-entry", "def m = <<<'k' => {A}, 'j' => 0>>>; m['k'] {op}= {B}", "m['k']", "[m['j'], length(m)]"),
+    ("member", "def o = <*x = {A}, y = 0*>; o->x {op}= {B}", "o->x", "o->y"),
+    ("outer-binding", "def v = {A}; def f() do v {op}= {B}; 0 end; f()", "v", None),
+    ("parameter", "def v = 0; def f(v) do v {op}= {B}; v end; def w = f({A})", "w", "v"),
+    ("in-loop", "def v = {A}; for i in [1] do v {op}= {B} end", "v", None),
+    ("alias-rebinds", "def u = {A}; def v = u; v {op}= {B}", "v", "u == {A}"),
+    ("nested-elem", "def l = [[{A}]]; def in_ = l[0]; l[0][0] {op}= {B}", "in_[0]", "length(l[0])"),
+]
+
+
+def run_compound(spec, ctx):
+    """`place op= e` is `place = place op (e)` for a variable, a list element, a map entry and an object member: same
+    value, same int-ness, same error, whatever e's own operators are; the neighbours of the place stay as they were"""
+    R = Runner(ctx)
+    r = ctx.rng
+    done = 0
+    while done < spec["n"]:
+        g = ge.ExprGen(r, max_depth=r.choice([1, 2, 3]), ticks=False)
+        op = r.choice(["+", "-", "*", "/", "%"])
+        a = r.choice([g.lit_int, g.lit_int, g.lit_dec, g.lit_str, g.lit_list, lambda: ("lit", rv.NULL), lambda: ("lit", ("bool", True))])()
+        if a[0] != "lit":
+            continue
+        numeric_a = a[1][0] in ("int", "dec", "null", "bool")
+        if op == "*" and not numeric_a:
+            b = ("lit", ("int", r.randint(0, 3)))
+        else:
+            b = g.any(0)
+            if op == "*" and not is_numeric_tree(b):
+                continue
+        if ge.size(b) > 20:
+            continue
+        done += 1
+        t = ("bin", op, a, b)
+        want = ref_outcome(ctx, t, {})
+        name, stmts, place, neighbour = r.choice(COMPOUND_FORMS)
+        A = lit(a[1])
+        B = rx.render(b, lit, full=r.random() < 0.3)
+        body = stmts.replace("{A}", A).replace("{op}", op).replace("{B}", B)
+        nb = neighbour.replace("{A}", A) if neighbour else "0"
+        prog = "do %s; [0, %s, %s] catch 'ERROR' do [1, 'ERROR'] end end" % (body, place, nb)
+        ctx.case(("compound", name, op, A, B))
+        ctx.count("compound_programs")
+        ctx.count("compound_form:" + name)
+        if want is None:
+            continue
+        o, _ = R.ev(prog)
+        if o.kind != "value":
+            ctx.violation("C02:compound:escape-%s" % o.kind, "%s -> %s %s" % (prog, o.kind, core.safe_str(o.exc, 200)), {"src": prog})
+            continue
+        try:
+            got = gv.abstract(o.value)
+        except gv.NotData:
+            got = ("other",)
+        ctx.count("compound_evaluations")
+        ok = got[0] == "list" and ((want[0] == "rte" and len(got[1]) == 2 and agrees(got, want))
+                                   or (want[0] == "value" and len(got[1]) == 3 and agrees(("list", got[1][:2]), want)))
+        if not ok:
+            ctx.violation("C02:compound:%s:%s" % (name, op), "%s gave %r; %s %s (%s) is %r" % (prog, got, A, op, B, want), {"src": prog})
+            continue
+        if want[0] == "value":
+            # the neighbours: compare with the same program without the compound assignment
+            plain = body[:body.rindex(";")] if ";" in body else body
+            ctx.count("compound_neighbour_checks")
+            o2, _ = R.ev("do %s; %s catch 'ERROR' 'ERR' end" % (plain, nb)) if name not in ("parameter", "var-value", "outer-binding", "in-loop") else (None, None)
+            if o2 is not None and o2.kind == "value":
+                try:
+                    if gv.abstract(o2.value) != got[1][2]:
+                        ctx.violation("C02:compound:neighbour:%s" % name, "%s gave %r, but %s was %r before" % (prog, got, nb, gv.abstract(o2.value)), {"src": prog})
+                except gv.NotData:
+                    pass
+        ctx.sample_maybe({"compound_program": prog[:300]}, 0.004)
+
+
 def run_long_chains(spec, ctx):
     """one operator repeated up to 240 times: still left-associative, whatever the operand kinds (decimal rounding,
     string and list concatenation are not associative across kinds)"""
@@ -718,7 +798,7 @@ def run_predicates(spec, ctx):
 
 def run_shard(spec, ctx):
     {"pairs": run_pairs, "random": run_random, "laws": run_laws, "predicates": run_predicates, "rebind": run_rebind,
-     "longchains": run_long_chains}[spec["kind"]](spec, ctx)
+     "longchains": run_long_chains, "compound": run_compound}[spec["kind"]](spec, ctx)
 
 
 def finalize(merged, tier):
